@@ -88,8 +88,12 @@ def k_bad_target(s):
     s.request(b"GET x HTTP/1.1\r\n\r\n"); return True
 def k_bad_port(s):
     s.request(b"GET :x/ HTTP/1.1\r\n\r\n"); return True
+BAD_CL = [b"a", b"-1", b"4611686018427387904", b"9223372036854775807", b"9223372036854775808", b"18446744073709551615", b"18446744073709551616", b"1099511627776", b"2147483648"]
 def k_bad_cl(s):
-    s.request(b"GET / HTTP/1.1\r\nContent-Length: a\r\n\r\n"); return True
+    # junk, and sizes no allocation can satisfy: one connection each
+    for v in BAD_CL:
+        s.request(b"POST /form-url-encoded-enctype-post-method HTTP/1.1\r\nContent-Length: " + v + b"\r\n\r\nabc")
+    return True
 def k_range_under(s):
     s.request(b"GET /a.txt HTTP/1.1\r\nRange: bytes=-99999\r\n\r\n"); return True
 def k_many_headers(s):
